@@ -1,13 +1,13 @@
 """C08 — JSON codec (see jsonfam.py and DESIGN.md §4.6-4.8)."""
 from . import jsonfam
 
-THEOREMS = ["Goag.JsonM.decodeFields_ok_required_present", "Goag.JsonM.decodeFields_never_unnamed_type", "Goag.JsonM.decodeFields_missing_origin"]
+THEOREMS = ["Goag.JsonM.decodeFields_ok_required_present", "Goag.JsonM.decodeFields_never_unnamed_type", "Goag.JsonM.decodeFields_missing_origin", "Goag.JsonM.decode_encode_is_prune", "Goag.JsonM.conforming_decodes", "Goag.JsonM.valid_document_cycle", "Goag.JsonM.bad_shape_rejected"]
 RULE = "specs = random component sets: objects (1-4 properties of primitive / nullable primitive / $ref / inline array / inline object / untyped kind, required or optional, additionalProperties absent / true / schema), array components, allOf in every ref/inline member order, oneOf with discriminator (+mapping) and without; values = reflect-built from the schema (every optional subset, nulls where allowed, empty and nil collections, strings needing escapes, extreme numbers, zoned times, additional keys with quotes / backslashes / newlines / non-ASCII); documents = generated from the schema independently of goag (optional subsets, null where allowed, extra keys) + single-fault mutants (drop a required key, swap a value kind); distinct by (package, type, canonical JSON)"
-EXPLANATION = "decode: every generated document and single-fault mutant is decoded by the generated UnmarshalJSON; result (value dump or error kind + key) and canonical re-encoding are compared with the Lean model decode / toJ and with the reference (valid => accepted and re-encoded to the document up to keys the schema does not allow; dropped required key / wrong JSON kind => error naming the property)"
+EXPLANATION = "theorems valid_document_cycle / bad_shape_rejected: for leaf / array / object schemas of any depth, a conforming document whose leaves the library accepts decodes and re-encodes to the reference prune, and whatever decodes has every required property and the declared structural kinds at every depth (inside_proved_fragment counts the run's documents under each theorem); decode: every generated document and single-fault mutant is decoded by the generated UnmarshalJSON; result (value dump or error kind + key) and canonical re-encoding are compared with the Lean model decode / toJ and with the reference (valid => accepted and re-encoded to the document up to keys the schema does not allow; dropped required key / wrong JSON kind => error naming the property)"
 ASSUMPTIONS = ["schemas non-recursive; property names free of quote / backslash / control characters", "oneOf without discriminator: every alternative has a required property of its own (unambiguous probing)",
                "nil slices only where goag converts them (object property, array component); not under Nullable, not nested in arrays or maps",
                "allOf members by reference do not declare additionalProperties (KF-C06-embeddedAddl) and do not share property names"]
 
 
 def check(ctx):
-    return jsonfam.check(ctx, "C08", ["GoagModel.Props.C08"], THEOREMS, RULE, EXPLANATION, ASSUMPTIONS, level="translation_validation")
+    return jsonfam.check(ctx, "C08", ["GoagModel.Props.C08", "GoagModel.Props.C08b"], THEOREMS, RULE, EXPLANATION, ASSUMPTIONS, level="translation_validation")
